@@ -388,7 +388,7 @@ func runC10Engine(c *Case, out func(string)) {
 			if e.ApplyBatch(es) == nil && n > 0 {
 				hist = append(hist, wr{ops})
 			}
-		case "ecut", "eflip":
+		case "ecut", "eflip", "estruct":
 			damages = append(damages, l)
 		}
 	}
@@ -460,13 +460,63 @@ func runC10Engine(c *Case, out func(string)) {
 	// directory, restored from a pristine copy
 	pristine := filepath.Join(dir, "pristine")
 	copyTree(base, pristine)
+	// structural damage: walk the physical records of the newest file and aim at record
+	// boundaries (also between the fragments of one entry), at the byte behind each header,
+	// and at the record-type byte (not covered by the CRC) set to every other valid type
+	var expanded [][]string
+	for _, d := range damages {
+		if d[0] != "estruct" {
+			expanded = append(expanded, d)
+			continue
+		}
+		budget := 40
+		off := 0
+		var starts []int
+		for off+wal.HeaderSize <= len(orig) {
+			starts = append(starts, off)
+			ln := int(orig[off+4]) | int(orig[off+5])<<8
+			off += wal.HeaderSize + ln
+		}
+		step := 1
+		if len(starts) > 10 {
+			step = len(starts) / 10
+		}
+		for i := 0; i < len(starts) && budget > 0; i += step {
+			st := starts[i]
+			expanded = append(expanded, []string{"ecutabs", strconv.Itoa(st)})
+			expanded = append(expanded, []string{"ecutabs", strconv.Itoa(st + wal.HeaderSize)})
+			budget -= 2
+			for t := 1; t <= 4; t++ {
+				if int(orig[st+6]) != t {
+					expanded = append(expanded, []string{"esetabs", strconv.Itoa(st + 6), strconv.Itoa(t)})
+					budget--
+				}
+			}
+		}
+	}
+	damages = expanded
 	for _, d := range damages {
 		work := base
 		os.RemoveAll(base)
 		copyTree(pristine, base)
 		g := append([]byte{}, orig...)
 		var what string
-		if d[0] == "ecut" {
+		if d[0] == "ecutabs" {
+			n, _ := strconv.Atoi(d[1])
+			if n > len(g) {
+				n = len(g)
+			}
+			g = g[:n]
+			what = fmt.Sprintf("cut at %d of %d (record boundary or header end)", n, len(orig))
+		} else if d[0] == "esetabs" {
+			p, _ := strconv.Atoi(d[1])
+			v, _ := strconv.Atoi(d[2])
+			if p >= len(g) {
+				continue
+			}
+			what = fmt.Sprintf("record type byte at %d changed from %d to %d (file of %d bytes)", p, g[p], v, len(orig))
+			g[p] = byte(v)
+		} else if d[0] == "ecut" {
 			pm, _ := strconv.Atoi(d[1]) // per mille of the file
 			n := len(g) * pm / 1000
 			g = g[:n]
@@ -575,13 +625,14 @@ func genC10(w *bufio.Writer, seed int64, n int, tier string) {
 					genBops(w, r, k, 5)
 				}
 			}
-			for d := 0; d < 6; d++ {
+			for d := 0; d < 4; d++ {
 				if r.Intn(3) == 0 {
 					fmt.Fprintf(w, "eflip %d\n", r.Intn(1001))
 				} else {
 					fmt.Fprintf(w, "ecut %d\n", r.Intn(1001))
 				}
 			}
+			fmt.Fprintf(w, "estruct\n")
 			fmt.Fprintf(w, "end\n")
 			continue
 		}
